@@ -80,8 +80,8 @@ func (v *Vue) evalConditionExpr(ctx VueContext, expr string) (bool, error) {
 // and an error if evaluation fails.
 // The skipCount includes all nodes consumed by the chain (up to and including the matched node or the end of the chain).
 // onceAlreadyRendered applies the v-once rule to a chain member that was selected: it reports true when the
-// element was already rendered in this render, and marks it as rendered otherwise. The head of a chain is
-// checked by evaluate itself; v-else-if and v-else members are only reached from here.
+// element was already rendered in this render, and marks it as rendered otherwise. The head of a chain
+// is checked here as well, so that a head whose condition is false keeps its v-once for a later visit.
 func onceAlreadyRendered(ctx VueContext, node *html.Node) bool {
 	if !helpers.HasAttr(node, "v-once") || helpers.HasAttr(node, "v-for") {
 		return false
@@ -92,6 +92,14 @@ func onceAlreadyRendered(ctx VueContext, node *html.Node) bool {
 	}
 	ctx.seen[id] = true
 	return false
+}
+
+// isChainMember reports whether the element takes part in a v-if chain (v-pre switches the directives off).
+func isChainMember(node *html.Node) bool {
+	if helpers.HasAttr(node, "v-pre") {
+		return false
+	}
+	return helpers.HasAttr(node, "v-if") || helpers.HasAttr(node, "v-else-if") || helpers.HasAttr(node, "v-else")
 }
 
 func (v *Vue) evalElseIfChain(ctx VueContext, node *html.Node, nodes []*html.Node, depth int) ([]*html.Node, int, error) {
@@ -117,6 +125,9 @@ func (v *Vue) evalElseIfChain(ctx VueContext, node *html.Node, nodes []*html.Nod
 					break
 				}
 				lastChainNodeIdx = idx
+			}
+			if onceAlreadyRendered(ctx, node) {
+				return result, lastChainNodeIdx, nil
 			}
 			// Evaluate the node (evaluateNodeAsElement handles cloning internally)
 			evaluated, err := v.evaluateNodeAsElement(ctx, node, depth)
